@@ -324,6 +324,67 @@ func ModuleFileList(r *rand.Rand) []ZipFileSpec {
 	return fs
 }
 
+// ZipSizeBoundaryList draws a well-formed list whose DECLARED sizes put the total right at the
+// zip limit with a go.mod and/or LICENSE of non-trivial size contributing to it: the other
+// files sum to MaxZipFile-k and go.mod/LICENSE declare sizes around k (total exactly at the
+// limit, one above, one below).  Contents are a few bytes (lazy files: no data is materialised).
+func ZipSizeBoundaryList(r *rand.Rand) []ZipFileSpec {
+	mk := func(p string, size int64) ZipFileSpec {
+		f := ZipFileSpec{P: p, Mode: 0o644, Size: size, Content: []byte("x")}
+		if p == "go.mod" {
+			f.Content = ZipGoModBody(r)
+		}
+		return f
+	}
+	gm := int64(1 + r.Intn(2000))
+	if r.Intn(3) == 0 {
+		gm = zMaxGoMod - int64(r.Intn(3))
+	}
+	lic := int64(0)
+	if r.Intn(2) == 0 {
+		lic = int64(1 + r.Intn(2000))
+		if r.Intn(4) == 0 {
+			lic = zMaxLICENSE
+		}
+	}
+	total := zMaxZip + int64(r.Intn(3)) - 1 // one below, at, one above the limit
+	if r.Intn(4) == 0 {
+		total = zMaxZip + gm // the others alone are exactly at the limit
+	}
+	rest := total - gm - lic
+	var fs []ZipFileSpec
+	if r.Intn(5) != 0 {
+		fs = append(fs, mk("go.mod", gm))
+	} else {
+		rest += gm
+	}
+	if lic > 0 {
+		fs = append(fs, mk("LICENSE", lic))
+	}
+	names := []string{"a.bin", "pkg/b.bin", "c/d/e.bin", "data"}
+	k := 1 + r.Intn(3)
+	for i := 0; i < k; i++ {
+		sz := rest / int64(k-i)
+		if i == k-1 {
+			sz = rest
+		}
+		rest -= sz
+		fs = append(fs, mk(names[i], sz))
+	}
+	r.Shuffle(len(fs), func(i, j int) { fs[i], fs[j] = fs[j], fs[i] })
+	return fs
+}
+
+// ZipSizeBoundaryArchive is the same family for archives: declared sizes only.
+func ZipSizeBoundaryArchive(r *rand.Rand, m module.Version) []ZipArchEntry {
+	prefix := m.Path + "@" + m.Version + "/"
+	var es []ZipArchEntry
+	for _, f := range ZipSizeBoundaryList(r) {
+		es = append(es, ZipArchEntry{Name: prefix + f.P, Declared: uint64(f.Size), Content: f.Content})
+	}
+	return es
+}
+
 // ValidModuleFileList draws a list zip.Create accepts (distinct well-formed paths, regular
 // files with honest sizes, no nested module; a go.mod at the root most of the time, vendor
 // and upper-case directories allowed as long as nothing collides).
